@@ -232,6 +232,7 @@ pub struct VecExec<'s, K: Kind<X>, X: Item> {
     pub after_partial_take: bool,
     pub after_nth_panic: bool,
     pub after_adapt_panic: bool,
+    pub uniform: bool,
     pub st: &'s mut Stats,
     _k: PhantomData<K>,
 }
@@ -261,19 +262,23 @@ impl<'s, K: Kind<X>, X: Item> VecExec<'s, K, X> {
             after_partial_take: false,
             after_nth_panic: false,
             after_adapt_panic: false,
+            uniform: false,
             st,
             _k: PhantomData,
         }
     }
 
     pub fn fresh_items(owner: u8) -> (Vec<X>, Vec<Grp>) {
-        let items: Vec<X> = (0..K::N as u32).map(|p| X::fresh(p, owner)).collect();
+        Self::fresh_items_u(owner, false)
+    }
+    pub fn fresh_items_u(owner: u8, uniform: bool) -> (Vec<X>, Vec<Grp>) {
+        let items: Vec<X> = (0..K::N as u32).map(|p| X::fresh(if uniform { 0 } else { p }, owner)).collect();
         let grps = items.iter().map(|x| x.grp()).collect();
         (items, grps)
     }
 
     pub fn start_fresh_arr(&mut self) {
-        let (items, grps) = Self::fresh_items(OWN_MAIN);
+        let (items, grps) = Self::fresh_items_u(OWN_MAIN, self.uniform);
         self.st.elements_created += (K::N * X::W) as u64;
         self.model = grps;
         self.form = Form::Arr(K::arr_from_vec(items));
@@ -1307,11 +1312,11 @@ impl<'s, K: Kind<X>, X: Item> VecExec<'s, K, X> {
                 if op.f > 0 {
                     self.st.fault_cfg[F_OBSERVE_PANIC] += 1;
                 }
-                let mut kind = op.a % 5;
-                if kind >= 3 && self.twin.is_none() {
+                let mut kind = op.a % 6;
+                if (kind == 3 || kind == 4) && self.twin.is_none() {
                     kind = 2;
                 }
-                if kind >= 3 {
+                if kind == 3 || kind == 4 {
                     let (_, _, tf, tb) = self.twin.as_ref().unwrap();
                     if *tf == self.front && *tb == self.back {
                         self.st.probes[P_EQ_TWIN_SAME_STATE] += 1;
@@ -1320,11 +1325,11 @@ impl<'s, K: Kind<X>, X: Item> VecExec<'s, K, X> {
                     }
                 }
                 let twin = self.twin.as_ref().map(|t| &t.0);
-                if op.b > 0 && kind == 0 {
+                if op.b > 0 && (kind == 0 || kind == 5) {
                     self.st.fault_cfg[F_SINK] += 1;
                     set_sink_fail(op.b);
                 }
-                let touch = m(OWN_MAIN) | if kind >= 3 { m(OWN_TWIN) } else { 0 };
+                let touch = m(OWN_MAIN) | if kind == 3 || kind == 4 { m(OWN_TWIN) } else { 0 };
                 let (r, fired) = guard(0, touch, plan_of(Cb::Observe, op.f), || match kind {
                     0 => {
                         use std::fmt::Write;
@@ -1342,8 +1347,13 @@ impl<'s, K: Kind<X>, X: Item> VecExec<'s, K, X> {
                     3 => {
                         let _ = it == twin.unwrap();
                     }
-                    _ => {
+                    4 => {
                         let _ = twin.unwrap() != it;
+                    }
+                    _ => {
+                        use std::fmt::Write;
+                        let mut w = NullWriter(0);
+                        let _ = write!(w, "{:#?}", it);
                     }
                 });
                 if fired {
@@ -1476,7 +1486,7 @@ impl<'s, K: Kind<X>, X: Item> VecExec<'s, K, X> {
                 if tok::has_violation() {
                     return true;
                 }
-                let (items, grps) = Self::fresh_items(OWN_TWIN);
+                let (items, grps) = Self::fresh_items_u(OWN_TWIN, self.uniform);
                 self.st.elements_created += (n * X::W) as u64;
                 let made = guard_nopanic("twin construction", 0, 0, move || K::v_into_iter(K::v_from_arr(K::arr_from_vec(items))));
                 let mut t = match made {
@@ -1512,7 +1522,7 @@ impl<'s, K: Kind<X>, X: Item> VecExec<'s, K, X> {
                     Form::It(it) => it,
                     _ => return false,
                 };
-                if op.a % 4 == 3 {
+                if op.a % 8 == 3 {
                     // Default probe: an iterator made by `Default` owns whatever it created; every
                     // such element must be yielded or destroyed like any other
                     let (r, _) = guard(0, 0, None, || crate::probe::try_default_iter::<K::It>());
@@ -1555,8 +1565,44 @@ impl<'s, K: Kind<X>, X: Item> VecExec<'s, K, X> {
                     }
                     return true;
                 }
-                let sel = op.a % 4;
-                if sel == 1 {
+                let sel = op.a % 8;
+                if sel == 7 {
+                    // mutable slice-view probe: `AsMut<[T]>` must show exactly the remaining elements;
+                    // the probe reverses them in place, and the model follows
+                    let it = match &mut self.form {
+                        Form::It(it) => it,
+                        _ => return false,
+                    };
+                    let (r, _) = guard(0, 0, None, || crate::probe::try_asmut_iter::<K::It>(it));
+                    match r {
+                        Ok(None) => {}
+                        Ok(Some(pairs)) => {
+                            self.st.probes[P_SLICE_PROBE_ACTIVE] += 1;
+                            let want: Vec<u32> = self.dq.iter().map(|g| g.first()).collect();
+                            for (id, val) in &pairs {
+                                if !tok::check_read("as_mut() on the iterator", *id, *val) {
+                                    return true;
+                                }
+                            }
+                            let got: Vec<u32> = pairs.iter().map(|p| p.0).collect();
+                            if got != want {
+                                match got.iter().find(|id| !want.contains(id)) {
+                                    Some(id) => tok::raise(V4_READ_AFTER_YIELD, format!("as_mut() on the iterator exposes id {} which it no longer holds", id)),
+                                    None => tok::raise(V5_ORDER, format!("as_mut() on the iterator shows {:?}, the remaining elements are {:?}", got, want)),
+                                }
+                                return true;
+                            }
+                            let mut v: Vec<Grp> = self.dq.drain(..).collect();
+                            v.reverse();
+                            self.dq = v.into_iter().collect();
+                        }
+                        Err(t) => self.unexpected("as_mut on the iterator", t),
+                    }
+                    return true;
+                }
+                if sel == 0 || sel == 4 {
+                    // fall through to the clone probe below
+                } else if sel == 1 {
                     // ordering probe: comparing the iterator with itself may only touch live elements
                     let (r, _) = guard(0, m(OWN_MAIN), None, || crate::probe::try_cmp_iter::<K::It>(it));
                     match r {
@@ -1567,10 +1613,14 @@ impl<'s, K: Kind<X>, X: Item> VecExec<'s, K, X> {
                     self.check_len("partial_cmp probe");
                     return true;
                 }
-                if sel == 2 {
+                if sel == 2 || sel == 5 || sel == 6 {
                     // slice-view probe: an `AsRef<[T]>` view of the iterator must show exactly the
                     // remaining elements, in order
-                    let (r, _) = guard(0, 0, None, || crate::probe::try_slice_iter::<K::It>(it));
+                    let (r, _) = guard(0, 0, None, || match sel {
+                        2 => crate::probe::try_slice_iter::<K::It>(it),
+                        5 => crate::probe::try_view_iter::<K::It>(it, 1),
+                        _ => crate::probe::try_view_iter::<K::It>(it, 2),
+                    });
                     match r {
                         Ok(None) => {}
                         Ok(Some(pairs)) => {
